@@ -200,6 +200,7 @@ def gen_cell(rseed: int, tier: str) -> Dict[str, Any]:
         "file_encoding_by_caller": f.choice(["utf8", "utf8", "utf8", "utf-8-sig", "latin-1", "cp1252", "utf-16"]),
         "preamble": f.choice([0, 0, 0, 0, 0, 0, 3]),
         "real_fs": f.random() < 0.125,
+        "strict_warnings": f.random() < 0.15,
         "eio_at": None,
         "wrong_types": g.sample(WRONG_TYPES, 3) if g.random() < 0.3 else [],
         "fname": f.choice(["schema.dbml", "my schema.dbml", "schéma.dbml", "s.txt"]),
@@ -264,6 +265,9 @@ def execute_cell(cell: Dict[str, Any], tmp: str) -> Dict[str, Any]:
         stats["fault:non-lf-line-endings-in-file"] = 1
     stext = ("\ufeff" if cell["bom"] else "") + text
     fs = SimFS(cell, stats)
+    saved_filters = E1.strict_warnings(bool(cell.get("strict_warnings")))
+    if saved_filters is not None:
+        stats["fault:deprecation-warnings-are-errors"] = 1
     had_open = "open" in vars(pmod)
     saved_open = vars(pmod).get("open")
     try:
@@ -462,6 +466,10 @@ def execute_cell(cell: Dict[str, Any], tmp: str) -> Dict[str, Any]:
         else:
             stats["config:fault-free"] = 1
     finally:
+        if saved_filters is not None:
+            import warnings
+            warnings.filters[:] = saved_filters
+            getattr(warnings, "_filters_mutated", lambda: None)()
         io.open = REAL_OPEN
         builtins.open = REAL_OPEN
         if had_open:
